@@ -175,4 +175,37 @@ inline std::string tieProneSibling(const std::string& base, Rng& r) {
 	}
 }
 
+// Names that are different but agree on a common cheap 32-bit string digest (FNV-1a-32, FNV-1-32, the x31 and x33 multiplicative
+// hashes, the byte sum): a lookup table or cache keyed by the digest alone confuses them. The cores contain no letters, so the pairs
+// also collide after any case folding; a common suffix keeps every one of these collisions. Returns the missing twin of a name already
+// in `names` if there is one, otherwise one half of a fresh pair (the other half follows on a later call).
+inline std::string digestTwin(const std::vector<std::string>& names, Rng& r, size_t maxLen) {
+	static const char* const T[][2] = {
+		// FNV-1a-32
+		{"&(7()~", ",%23;_"}, {";3!7&_", "-4=8$-"}, {")=$27_", "%;#+4("}, {"&$#,40", ",(2=88"}, {"94;649", "80+7~!"}, {",05926", "=9&+2+"},
+		{"7,%8)=", ",!_5;0"}, {")=84($", "&9%$=="}, {"=+)3(5", "%4=1+!"}, {"-~;;)3", "(07#=~"}, {"9##,_)", "=%0+$,"}, {"7=4,18", "&,;8;%"},
+		{"9(~36#", "1&9~=4"}, {"3;(+1_", "22)0_3"}, {"+0(+-$", "-!0,;2"}, {"=-;32~", "+3~7=,"}, {"2_$2#4", "+0~)%;"}, {"4=&9-3", "3+!~(%"},
+		{"0,;$6!", ")+&=#$"}, {"+77811", "9(1_;;"}, {";0%45&", ")%$(&;"}, {"+#5&-$", "(%00+("}, {"#4+-%%", "=;-78;"},
+		// FNV-1-32
+		{"3=90-&", "=4=#6;"}, {"66$396", "2;~3~("}, {",3)8_5", "&6;!7%"}, {"%,2((5", ";40#20"}, {"8%9(#)", "$!),35"}, {"3,$-_,", "-!=#65"},
+		{",2&&00", "$5974_"}, {",14&85", ",5;7~_"}, {"49(598", "$12#07"}, {"$12~~!", "&99#67"}, {"+5-5))", "#)_45~"}, {"$4));!", "3;8#=4"},
+		{"8%&#~1", "2#5478"}, {"-5;&0,", "6$&;9)"}, {";,019#", "+#0,9%"}, {"57!~5,", "9$08_,"}, {",01419", "-0$-+&"}, {"$+$39$", "4,;90;"},
+		// h*31+c, h*33+c, byte sum / xor
+		{"1_", "2@"}, {"1~", "2_"}, {"7_", "8@"}, {"1_", "2>"}, {"1~", "2]"}, {"5_", "6>"}, {"19", "91"}, {"3-7", "7-3"},
+	};
+	static const size_t N = sizeof T / sizeof T[0];
+	auto has = [&](const std::string& c) { for (auto& o : names) if (o == c) return true; return false; };
+	for (auto& nm : names) for (size_t k = 0; k < N; ++k) for (int side = 0; side < 2; ++side) {
+		std::string a = T[k][side], b = T[k][1 - side];
+		if (nm.size() >= a.size() && nm.compare(0, a.size(), a) == 0) { std::string c = b + nm.substr(a.size()); if (!has(c)) return c; }
+	}
+	size_t k = static_cast<size_t>(r.below(N)), side = static_cast<size_t>(r.below(2));
+	std::string core = T[k][side];
+	static const char* S[] = {"", "", ".t", "x", "K9", ".wav", ".txt", "_long.name"};
+	std::string suf = S[r.below(8)];
+	if (core.size() + suf.size() > maxLen) suf = suf.substr(0, maxLen > core.size() ? maxLen - core.size() : 0);
+	if (!suf.empty() && suf.back() == '.') suf.pop_back();
+	return core + suf;
+}
+
 } // namespace sim
